@@ -172,7 +172,8 @@ impl Https {
     pub uninterp spec fn authority_spec(&self) -> Seq<char>;
     #[verifier::external_body]
     pub fn authority(&self) -> (r: &str) ensures r@ == self.authority_spec(), no_slash(r@) { unimplemented!() }
-    #[verifier::external_body] pub fn as_str(&self) -> (r: &str) { unimplemented!() }
+    // the URI as a string: exactly its bytes
+    #[verifier::external_body] pub fn as_str(&self) -> (r: &str) ensures r.spec_bytes() == self.bytes_spec() { unimplemented!() }
     #[verifier::external_body] pub fn path(&self) -> (r: &str) { unimplemented!() }
 }
 impl PathBuf {
@@ -183,3 +184,19 @@ impl PathBuf {
         ensures r.comps() == self.comps().push(c@),
     { unimplemented!() }
 }
+
+// ---- strings as bytes: vstd's `str::as_bytes` returns `spec_bytes()` (the UTF-8 encoding).
+// Case mapping: NOTHING is assumed about the content of the result except its length, so a digest
+// (or a path component) computed from a case-folded string cannot be shown to be the one the
+// contracts name.
+pub assume_specification [str::to_ascii_lowercase] (s: &str) -> (r: std::string::String)
+    ensures r@.len() == s@.len();
+pub assume_specification [str::to_ascii_uppercase] (s: &str) -> (r: std::string::String)
+    ensures r@.len() == s@.len();
+pub assume_specification [str::to_lowercase] (s: &str) -> (r: std::string::String);
+pub assume_specification [str::to_uppercase] (s: &str) -> (r: std::string::String);
+// String::as_bytes: the UTF-8 encoding of the content; only its length relation is ASSUMED known
+// here (vstd gives `str::as_bytes` but not the String method).
+pub uninterp spec fn string_bytes(s: Seq<char>) -> Seq<u8>;
+pub assume_specification [std::string::String::as_bytes] (s: &std::string::String) -> (r: &[u8])
+    ensures r@ == string_bytes(s@);
